@@ -78,6 +78,13 @@ and show_key k = match k with
   | _ -> show_json k
 
 let handle = function
+  | ["qpenc"; col; h] -> hex_of_bytes (qp_loop mAXCOL sEP (bytes_of_hex h) (z_of_i (int_of_string col)))
+  | ["qpdec"; h] -> (match qp_decode (bytes_of_hex h) with Some l -> "S " ^ hex_of_bytes l | None -> "N")
+  | ["urienc"; plus; extl; cps] ->
+     let ext = cps_of_string extl in
+     let extf c = List.exists (fun e -> int_of_zz e = int_of_zz c) ext in
+     string_of_cps (uri_encode extf (bool_of plus) (cps_of_string cps))
+  | ["uridec"; plus; cps] -> (match uri_dec (bool_of plus) (cps_of_string cps) with Some l -> "S " ^ string_of_cps l | None -> "N")
   | ["jread"; h] -> (match json_read (bytes_of_hex h) with Ok v -> "V " ^ show_json v | Err -> "E" | Fuel -> "FUEL")
   | ["jwrite"; t] -> (match jwrite (parse_json t) with Some b -> "S " ^ hex_of_bytes b | None -> "N")
   | ["jexpect"; t] -> "V " ^ show_json (utf8_val (parse_json t))
